@@ -356,6 +356,9 @@ def run(tier, seed, replay=None):
             place_cases, place_twins = P.run_placement(sc, out, tier, "protocol", hm=hm, events=("pre",))
             cases = cases + place_cases
             trace_twin_allows(sc, out, place_twins)
+            # near-miss spellings of every literal a host field is compared with: answered like the neutral value
+            value_cases, _ = P.run_values(sc, out, tier, "protocol", hm=hm)
+            cases = cases + value_cases
         for idx, c in enumerate(cases):
             if c.fault:
                 out.count("fault_effect", fault_effect(sc, c, out))
@@ -409,7 +412,8 @@ def run(tier, seed, replay=None):
         "(bypass modes, PostToolUse, tool names, allowed command, allowing directory) x place (tool_input, deeper in tool_input, tool_response, "
         "other object, array, nested copy of the payload, near-miss spellings at the top level and in tool_input, duplicate member in the text) "
         "x top-level state (own / absent / null / empty) x host (claude, gemini, cursor, mcp, other tool, claude with top-level bypass) x "
-        "forced mode, run in-process (differences confirmed by real processes) plus a pairwise-covering sample as real processes. distinct = distinct (stdin, flags, env, configs, fault, io); non-trivial = "
+        "forced mode, run in-process (differences confirmed by real processes) plus a pairwise-covering sample as real processes; value families: ~35 near-miss spellings of each literal of permission_mode / hook_event_name / "
+        "tool_name x hosts x forced modes, same method. distinct = distinct (stdin, flags, env, configs, fault, io); non-trivial = "
         "everything except the plain well-formed verdict-class and tool-name cases")
     return out
 
